@@ -495,6 +495,36 @@ func ruleShrunkSetsNormalised(p *Program, r *Report) {
 			}
 		})
 	}
+	// … and functions that return what a normaliser returns (newTrimmedString → NewOffsetString), to a fixpoint
+	for changed := true; changed; {
+		changed = false
+		for _, fn := range p.RepoFns {
+			if fn.Pkg != relPkg || returnsNone[fn] {
+				continue
+			}
+			ForEachInstr(fn, func(ins ssa.Instruction) {
+				ret, ok := ins.(*ssa.Return)
+				if !ok || returnsNone[fn] {
+					return
+				}
+				for i := range ret.Results {
+					v := RetVal(ret, i)
+					if mi, ok := v.(*ssa.MakeInterface); ok {
+						v = mi.X
+					}
+					if ex, ok := v.(*ssa.Extract); ok {
+						v = ex.Tuple
+					}
+					if c, ok := v.(*ssa.Call); ok {
+						if g := c.Call.StaticCallee(); g != nil && returnsNone[g] {
+							returnsNone[fn] = true
+							changed = true
+						}
+					}
+				}
+			})
+		}
+	}
 	isEmptinessTest := func(cond ssa.Value) bool {
 		return DependsOn(cond, func(x ssa.Value) bool {
 			switch y := x.(type) {
